@@ -274,6 +274,23 @@ func checkC13(w *World, r *Report) {
 			obad = append(obad, "a path to "+w.instrPos(o.Instr)+" writes MatchedBidsLen before reading the stored value")
 		}
 	}
+	// every evaluation of the rule records the current matched length — also when it is zero — so that the next end
+	// time compares with this round and not with an older one: every non-failing path that read the stored value (the
+	// rule was evaluated) also wrote it
+	var wbad []string
+	for _, o := range NewExplorer(w, tm, or).Run(settle, 0) {
+		if o.Kind != ExitReturn || o.St&1 == 0 || o.St&4 != 0 {
+			continue
+		}
+		if av, ok := o.ErrAV(settle); ok && av.K == avNonNil {
+			continue
+		}
+		wbad = append(wbad, "a non-failing path to "+w.instrPos(o.Instr)+" reads the stored last matched length but does not store the current one")
+	}
+	sort.Strings(wbad)
+	r.Check(len(wbad) == 0, "EXT-ORDER", fnName(settle)+":written-every-round", w.pos(settle.Pos()),
+		"every non-failing evaluation of the round stores the current matched length (whatever its value)",
+		strings.Join(dedupe(wbad), "; ")+": after a round that does not store it (e.g. nothing matched) the next end time is compared with the length of an older round")
 	sort.Strings(obad)
 	r.Check(len(obad) == 0, "EXT-ORDER", fnName(settle)+":read-before-write", w.pos(settle.Pos()),
 		"the stored last matched length is read before the matching calculation overwrites it", strings.Join(dedupe(obad), "; ")+": the rule then compares the current length with itself")
@@ -290,6 +307,10 @@ func checkC13(w *World, r *Report) {
 		}
 	}
 	r.Check(len(hits) == 0, "EXT-ORDER", "msg:no-writer", keeperPath, "no message handler can write the last matched length", strings.Join(hits, ", "))
+	// an extended round lasts until its own (the last) end time: the settlement decision is taken against last(EndTimes)
+	r.Sub(checkC08, "TIME-POL")
+	// the agreed extended-round rate and the counts compared with it are not changed by the comparison itself
+	checkNoMut(w, r, tm, "NO-MUT")
 }
 
 type endWriteRule struct {
@@ -319,6 +340,7 @@ func (o *orderRule) OnInstr(x *Explorer, fr *Frame, in ssa.Instruction, st uint6
 			if st&1 == 0 {
 				st |= 2
 			}
+			st |= 4
 		}
 	}
 	return st
